@@ -813,7 +813,7 @@ func runHistory(seed uint64, nblocks, ntx, upto int, drop [][2]int) (out *runOut
 		for i, raw := range raws {
 			a, agree := abstract(raw, chain)
 			if !agree {
-				viol(b, fmt.Sprintf("tx %d (%s): the real verifier and the independent recomputation of Ed25519 over SHA-512/256(tx context for this chain || blob) disagree", i, gts[i].Kind), map[string]any{"tx": hex.EncodeToString(raw)})
+				viol(b, fmt.Sprintf("tx %d (%s): the real verifier disagrees with the independent verdict (Ed25519 over SHA-512/256(tx context for this chain || blob), and the key is not blacklisted)", i, gts[i].Kind), map[string]any{"tx": hex.EncodeToString(raw)})
 			}
 			abs = append(abs, a)
 			if a.Env {
